@@ -263,6 +263,14 @@ class ExprMixin:
             self.oblige_safe('ZeroDivisionError', y != 0, 'mod')
             if x.sort() == I:
                 # Python floor-mod: sign follows the divisor.  z3 mod is Euclidean (result >= 0).
+                if not z3.is_int_value(z3.simplify(y)) and getattr(self, 'mod_lemma', True):
+                    # symbolic divisor (nonlinear for the solver): canonical dividend + the instance of the
+                    # separately proved lemma  y > 0 => (x % y == 0  <=>  (-x) % y == 0)   [lemma:mod_neg_zero]
+                    xn = z3.simplify(x, sort_sums=True)
+                    xneg = z3.simplify(-x, sort_sums=True)
+                    self.fact(z3.Implies(y > 0, (xn % y == 0) == (xneg % y == 0)))
+                    self.used_assumption('engine lemma mod_neg_zero (discharged as its own obligation)')
+                    x = xn
                 r = z3.If(y > 0, x % y, -((-x) % (-y)))
                 return self.mk_num(r, a, b)
             f = z3.Function('fmod', x.sort(), y.sort(), x.sort())
@@ -513,6 +521,8 @@ class ExprMixin:
         raise Unsupported(f'class attribute {cname}.{name}')
 
     def with_state(self, v, st):
+        if isinstance(v, VOld):
+            return VOld(v.env, st if v.st is None else v.st)
         if isinstance(v, VRef):
             return VRef(v.term, v.typ, st)
         if isinstance(v, VTuple):
